@@ -194,8 +194,8 @@ fn c10<W: WorldDriver>(m: &HashMap<String, String>) -> i32 {
         Ok(_) => {}
         Err(msg) => {
             let path = m.get("fail-out").cloned().unwrap_or_else(|| format!("fail-C10-{}.ops", seed));
-            std::fs::write(&path, format!("# property C10\n# {}\nworld {}\nctor 2\ncaps 16777217\n", msg, W::NAME)).expect("write replay");
-            println!("FAIL prop=C10 sig=ctor-capacity-panic tags=C10 step=0 replay={} msg={}", path, one_line(&msg));
+            std::fs::write(&path, format!("# property C10\n# fixed scenario (leaked guard / constructor capacity): {}\nworld {}\nctor 0\ncaps\n", one_line(&msg), W::NAME)).expect("write replay");
+            println!("FAIL prop=C10 sig=fixed-scenario tags=C10 step=0 replay={} msg={}", path, one_line(&msg));
             return 1;
         }
     }
